@@ -1,6 +1,34 @@
 /* further number-theoretic ops (C09 extension, exponentiation family): linked through ORACLE_EXTRA2. */
 #include "oracle.h"
 
+static void tok_bn(bn_t x, const char *tok) { raw_t r; raw_parse(&r, tok); raw_to_bn(x, &r); }
+
+#define NEW(x) bn_null(x); bn_new(x)
+
+/* nt_mxp_crt <a> <dp> <dq> <p> <q> <sqr> : bn_mxp_crt(d, a, dp, dq, crt, sqr) with crt = {p, q, dp, dq, qi = q^-1 mod p, n = p*q};
+ * prints "err" when the inverse of q modulo p does not exist (bn_mod_inv reports it) or the exponentiation reports an error */
+static void op_nt_mxp_crt(int argc, char **argv) {
+	if (argc < 7) { fprintf(OUT, "bad-args\n"); return; }
+	bn_t a, dp, dq, d; crt_t crt; int caught = 0;
+	int sqr = atoi(argv[6]) != 0;
+	NEW(a); NEW(dp); NEW(dq); NEW(d);
+	crt_null(crt);
+	RLC_TRY {
+		crt_new(crt);
+		tok_bn(a, argv[1]); tok_bn(dp, argv[2]); tok_bn(dq, argv[3]);
+		tok_bn(crt->p, argv[4]); tok_bn(crt->q, argv[5]);
+		bn_copy(crt->dp, dp); bn_copy(crt->dq, dq);
+		bn_mul(crt->n, crt->p, crt->q);
+		bn_mod_inv(crt->qi, crt->q, crt->p);
+	} RLC_CATCH_ANY { caught = 1; }
+	if (take_err() || caught) { fprintf(OUT, "err\n"); crt_free(crt); return; }
+	RLC_TRY { bn_mxp_crt(d, a, dp, dq, crt, sqr); } RLC_CATCH_ANY { caught = 1; }
+	if (take_err() || caught) fprintf(OUT, "err"); else bn_out(d);
+	fputc('\n', OUT);
+	crt_free(crt);
+}
+
 const op_t ops_nt_mxp[] = {
+	{"nt_mxp_crt", op_nt_mxp_crt},
 	{NULL, NULL}
 };
